@@ -7,7 +7,8 @@ G: the same module with Emit=TRUE enumerates curves x = 0..n-1 (n-1 a power of t
    point sequences (|K|+|E| <= n), dyadic tolerances; every behaviour is replayed into evaluation.cm / accuracy /
    f1score / mcc and evaluation.mae / mse / rmse / rmspe x 4 strategies.
 T: Trace_Evaluation (confusion matrices of a few hundred points, GreedyTP) and Trace_EvaluationScale (the "scale" family:
-   production-size calls - 10^3 .. 10^5 points, 257 .. 70000 knees / expected points - with sparse, TLC-certified tables)."""
+   production-size calls - 10^3 .. 10^5 points, 257 .. 70000 knees / expected points - with sparse, TLC-certified tables;
+   it includes non-monotone large-amplitude waves with a few points on the iterated side covering part of the x range)."""
 import math
 from fractions import Fraction as Fr
 
@@ -214,6 +215,9 @@ STATIC_BIG = {"id": "s", "outcome": "returned", "n": 9, "K": [3, 8], "E": [[2, 0
 #        1/(range * td) > 8e-9).  accuracy / f1score / mcc of that matrix: range and 1 on perfect detection.
 SC_Y = 16000
 SC_SHAPES = ("hyper", "stairs", "saw", "ramp", "mrc")
+# seed round 16: NON-MONOTONE curves whose ordinate scale dwarfs the unit x step (slow waves / sawteeth of amplitude thousands):
+# on them the Euclidean nearest neighbour of a point is routinely dozens of candidates away from its nearest neighbour in x
+SC_WAVES = ("wave", "sawwave", "decaywave", "triwave")
 SC_ROWS = 4000            # rows of one matching table that reach TLC (all of them when the iterated side is not longer)
 SC_WINDOW = 250000        # candidate evaluations of one matching table inside TLC
 
@@ -223,10 +227,20 @@ def _machinery(msg):
     raise getattr(sys.modules.get("__main__"), "Machinery", RuntimeError)(msg)
 
 
-def _sc_curve(shape, n, seed):
+def _sc_curve(shape, n, seed, wave=None):
     import random
     i = np.arange(n, dtype=np.int64)
-    if shape == "hyper":
+    amp, per = wave if wave else (0, 1)             # wave = [amplitude, period] of the SC_WAVES shapes (integers)
+    if shape == "wave":                             # slow sine around mid-height
+        y = np.floor(amp * np.sin(2.0 * np.pi * i / per)) + 8000
+    elif shape == "sawwave":                        # slow ramps separated by cliffs
+        y = 1 + ((i % per) * amp) // per + (i % 3)
+    elif shape == "triwave":                        # slow triangle wave
+        h = i % per
+        y = 1 + (np.minimum(h, per - h) * 2 * amp) // per + (i * 5 % 4)
+    elif shape == "decaywave":                      # decaying trace with a periodic component (plateaus and cliffs)
+        y = np.floor(9000.0 * np.exp(-4.0 * i / n) + amp * np.sin(2.0 * np.pi * i / per)) + amp + 2
+    elif shape == "hyper":
         y = np.floor(15000.0 / np.sqrt(1.0 + i)) + 1 + (i * 37 % 5)
     elif shape == "stairs":
         y = scale.staircase(n, min(400, n // 8), random.Random(seed))[:, 1] + 1
@@ -241,7 +255,9 @@ def _sc_curve(shape, n, seed):
     return np.ascontiguousarray(np.column_stack([i.astype(float), y]))
 
 
-def _sc_knees(rng, n, nk, mode):
+def _sc_knees(rng, n, nk, mode, win=None):
+    if mode == "window":                            # a few knees that cover only the part win = [x0, w] of the x range
+        return sorted(rng.sample(range(win[0], win[0] + win[1] + 1), nk))
     if mode == "even":
         return sorted(set(int(v) for v in np.linspace(1, n - 2, nk).astype(int)))
     if mode == "clustered":
@@ -260,8 +276,9 @@ def _sc_build(d):
     import random
     rng = random.Random(d["seed"])
     n = d["n"]
-    P = _sc_curve(d["shape"], n, d["seed"])
-    K = _sc_knees(rng, n, d["nk"], d["kmode"])
+    P = _sc_curve(d["shape"], n, d["seed"], d.get("wave"))
+    win = d.get("win")
+    K = _sc_knees(rng, n, d["nk"], d["kmode"], win)
     ne, mode = d["ne"], d["emode"]
     ys = P[:, 1]
     if d["fam"] == "cm":
@@ -292,6 +309,23 @@ def _sc_build(d):
         while len(pts) < ne:
             guard += 1
             near = mode in ("near", "off") and (guard < 6 * ne) and rng.random() < 0.9
+            if mode in ("win-on", "win-level", "win-mixed"):
+                # a FEW expected points inside the part win = [x0, w] of the x range: on the curve, or at the height the curve
+                # has somewhere else (far off the curve: the nearest knee is where the curve comes back to that height)
+                x = rng.randrange(win[0], win[0] + win[1] + 1)
+                lvl = mode == "win-level" or (mode == "win-mixed" and rng.random() < 0.5)
+                y = int(ys[rng.randrange(n)]) if lvl else int(ys[x])
+                if (x, y) not in seen:
+                    seen.add((x, y))
+                    pts.append((x, y))
+                continue
+            if mode == "level":                     # anywhere in x; half of them at the height of another point of the curve
+                x = rng.randrange(1, n)
+                y = int(ys[rng.randrange(n)]) if rng.random() < 0.5 else int(ys[x])
+                if (x, y) not in seen:
+                    seen.add((x, y))
+                    pts.append((x, y))
+                continue
             if near:
                 x = K[rng.randrange(len(K))] + rng.choice((-2, -1, 0, 0, 1, 2, 3))
                 x = min(max(x, 1), n - 1)
@@ -386,6 +420,19 @@ def _sc_rmspe(A, Bp, mt, eps):
     return math.sqrt(math.fsum(terms) / (2 * len(A)))
 
 
+def _sc_xstats(A, Bp, mt):
+    """how far the (Euclidean) matching is from a matching in x alone: iterated points whose match is not a nearest
+    candidate in x, and whose match lies outside the x span of the iterated side widened by one candidate on each side"""
+    sx = np.sort(Bp[:, 0])
+    mx = Bp[mt, 0]
+    pos = np.clip(np.searchsorted(sx, A[:, 0]), 1, len(sx) - 1) if len(sx) > 1 else np.zeros(len(A), dtype=int)
+    dmin = np.minimum(np.abs(sx[pos - 1] - A[:, 0]), np.abs(sx[pos] - A[:, 0])) if len(sx) > 1 else np.abs(sx[0] - A[:, 0])
+    lo = max(int(np.searchsorted(sx, A[:, 0].min(), side="left")) - 1, 0)
+    hi = min(int(np.searchsorted(sx, A[:, 0].max(), side="right")), len(sx) - 1)
+    return {"nn_not_x_nearest": int((np.abs(mx - A[:, 0]) > dmin).sum()),
+            "nn_outside_x_span": int(((mx < sx[lo]) | (mx > sx[hi])).sum())}
+
+
 def _sc_side(s, nk, ne):
     if s in ("knees", "expected"):
         return s
@@ -409,6 +456,7 @@ def _sc_err_oracle(d):
         wants[side] = {"mae": mae_n / (2.0 * na), "mse": mse_n / (2.0 * na), "rmse": math.sqrt(mse_n / (2.0 * na)),
                        "rmspe": _sc_rmspe(A, Bp, mt, EPS), "rmspe25": _sc_rmspe(A, Bp, mt, 0.25),
                        "far_matches": int((mt >= 256).sum()), "max_match_index": int(mt.max())}
+        wants[side].update(_sc_xstats(A, Bp, mt))
     perfect = set(map(tuple, Ei.tolist())) == set(map(tuple, KP.tolist()))
     case = {"id": d["id"], "kind": "err", "n": d["n"], "KP": KP.tolist(), "E": Ei.tolist(),
             "ordK": ords["expected"], "ordE": ords["knees"], "mk": tabs["knees"], "me": tabs["expected"],
@@ -518,7 +566,8 @@ def _sc_judge_err(d, orc, got):
                 bad.append(("error-definition(%s,%s)" % (fn, s),
                             dict(what, got=v, specified=w[name], iterated_side=side, iterated=na,
                                  matched_against=orc["ne"] if side == "knees" else orc["nk"],
-                                 matches_beyond_index_255=w["far_matches"])))
+                                 matches_beyond_index_255=w["far_matches"], matches_not_nearest_in_x=w["nn_not_x_nearest"],
+                                 matches_outside_the_x_span_of_the_iterated_side=w["nn_outside_x_span"])))
         for a, b, lab in (("rmse", "mse", s), ("rmse_default", "mse_default", "<default>")):
             if a in vals and b in vals and vals[b] >= 0 and not numeric.close(vals[a], math.sqrt(vals[b]), rel=1e-12):
                 bad.append(("rmse-is-sqrt-mse", {"strategy": lab, "rmse": vals[a], "mse": vals[b]}))
@@ -585,6 +634,36 @@ def _sc_plan(ctx):
             cmc.append(desc("cm", max(40, int(b * rng.uniform(0.3, 0.9))), b, "near", t=list(ts[4 + ti])))
         cmc.append(desc("cm", rng.randint(600, 3000), 0, "perfect", t=list(rng.choice(ts))))
         cmc.append(desc("cm", 16385 + rng.randrange(20000), rng.randint(300, 1500), "near", t=[1, 1000], kmode="uniform"))
+    # seed round 16: thousands of points on the SEARCHED side, a FEW (3 .. 20) on the iterated side that cover only a part of the
+    # x range, on non-monotone curves whose ordinate scale dwarfs the x step - nearest in x and nearest in the plane disagree
+    def span(many, few, orient, wkind, emode):
+        d = desc("err", many if orient == "K" else few, few if orient == "K" else many, emode, shape=rng.choice(SC_WAVES),
+                 kmode=rng.choice(("uniform", "uniform", "even", "clustered")) if orient == "K" else "window")
+        n = d["n"]
+        if d["shape"] == "decaywave":
+            d["wave"] = [rng.randint(1500, 3400), rng.randint(120, 1500)]
+        elif d["shape"] == "wave":
+            d["wave"] = [rng.randint(2000, 7000), rng.randint(150, 2000)]
+        else:
+            d["wave"] = [rng.randint(3000, 15000), rng.randint(100, 1500)]
+        w = {"narrow": rng.randint(20, 200), "medium": rng.randint(200, 2000), "wide": rng.randint(n // 10, n // 3)}[wkind]
+        w = max(w, 2 * few)
+        d["win"] = [rng.randrange(1, n - 1 - w), w]
+        return d
+
+    for rep in range(1 if ctx.quick else 3):
+        kinds = ["narrow", "medium", "wide", "narrow", "medium"]
+        ems = ["win-on", "win-level", "win-mixed", "win-mixed", "win-on"]
+        rng.shuffle(kinds)
+        rng.shuffle(ems)
+        manys = [rng.randint(2000, 5000), rng.randint(2000, 5000), rng.randint(1025, 1300), rng.randint(4097, 5000)]
+        if not ctx.quick:
+            manys += [rng.randint(257, 1024), (10001, 16385, 32769)[rep] + rng.randrange(2000)]
+        for k, many in enumerate(manys):
+            err.append(span(many, rng.randint(3, 20), "K", kinds[k % 5], ems[k % 5]))
+        # the other orientation: a few knees inside a window, thousands of expected points all over the curve
+        for k in range(1 if ctx.quick else 2):
+            err.append(span(rng.randint(2000, 5000), rng.randint(3, 20), "E", kinds[(4 + k) % 5], rng.choice(("level", "level", "random"))))
     for d in cmc:
         if d["emode"] == "perfect":
             d["ne"] = d["nk"]
@@ -704,7 +783,19 @@ def _scale_family(ctx):
                          "knee_layout": d["kmode"], "expected_points": d["emode"], "order": d["order"],
                          "perfect": by[d["id"]]["oracle"]["perfect"],
                          "rows_certified_by_tlc": [len(by[d["id"]]["oracle"]["case"][k]["rows"]) for k in ("mk", "me")],
-                         "sums_certified_by_tlc": [by[d["id"]]["oracle"]["case"][k]["full"] for k in ("mk", "me")]} for d in err]
+                         "sums_certified_by_tlc": [by[d["id"]]["oracle"]["case"][k]["full"] for k in ("mk", "me")],
+                         "wave_amplitude_period": d.get("wave"), "x_window_of_the_few_point_side": d.get("win"),
+                         "matches_not_nearest_in_x": [by[d["id"]]["oracle"]["wants"][k]["nn_not_x_nearest"] for k in ("knees", "expected")],
+                         "matches_outside_x_span_of_iterated_side":
+                             [by[d["id"]]["oracle"]["wants"][k]["nn_outside_x_span"] for k in ("knees", "expected")]} for d in err]
+    part = [d for d in err if d.get("win")]
+    few_side = lambda d: "expected" if d["kmode"] != "window" else "knees"
+    hit = [d for d in part if by[d["id"]]["oracle"]["wants"][few_side(d)]["nn_outside_x_span"] > 0]
+    cov["partial_span_cases"] = {"cases": len(part), "with_a_match_outside_the_x_span_of_the_iterated_side": len(hit),
+                                 "of_them_more_than_1024_candidates": sum(1 for d in hit if max(d["nk"], d["ne"]) > 1024)}
+    if part and not hit:
+        ctx.note("scale family: none of the %d partial-span cases of this run had a nearest neighbour outside the x span of its "
+                 "iterated side (the Euclidean-vs-x distinction was not exercised at scale by this seed)" % len(part))
     cov["cm_cases"] = [{"n": d["n"], "knees": len(by[d["id"]]["cm"]["case"]["K"]), "expected": len(by[d["id"]]["cm"]["case"]["EX"]),
                         "t": "%d/%d" % tuple(d["t"]), "expected_points": d["emode"], "cm": by[d["id"]]["cm"]["case"]["cm"]} for d in cmc]
     cov["violating_cases_by_clause"] = dict(seen)
@@ -713,7 +804,8 @@ def _scale_family(ctx):
     for d in err:
         o = by[d["id"]]["oracle"]
         ctx.count(("scale-err", d["n"], d["shape"], d["kmode"], d["emode"], d["nk"], d["ne"], d["seed"]),
-                  min(o["nk"], o["ne"]) > 256 or max(o["nk"], o["ne"]) > 256)
+                  (min(o["nk"], o["ne"]) > 256 or max(o["nk"], o["ne"]) > 256) if not d.get("win")
+                  else o["wants"][few_side(d)]["nn_outside_x_span"] > 0)
     for d in cmc:
         m = by[d["id"]]["cm"]["case"]["cm"]
         ctx.count(("scale-cm", d["n"], d["nk"], d["ne"], d["t"], d["seed"]), m[0][0] > 256 or m[1][0] >= 1)
@@ -746,7 +838,13 @@ def run(ctx):
                 "1024 / 4096 / 16384 / 32768 / 65536 in both directions (near / off-curve / random / perfect / shuffled / "
                 "|E| = |K|) - replayed into mae / mse / rmse / rmspe (default eps and 0.25) x 4 strategies against an exact int64 "
                 "nearest-neighbour matching that TLC certifies from sparse window tables, and into cm (t = tn/td, exact ties "
-                "included) whose matrix TLC judges by walking the greedy count from a locally certified nearest-knee table")
+                "included) whose matrix TLC judges by walking the greedy count from a locally certified nearest-knee table.  "
+                "Partial-span cases of the same family (same oracle, same TLC certificate, all 4 strategies): non-monotone curves "
+                "whose ordinates dwarf the unit x step (slow sine / sawtooth / triangle / decaying waves of amplitude 1500 .. 15000, "
+                "period 100 .. 2000), 1025 .. 5000 (thorough: 257 .. 35000) points on the searched side and 3 .. 20 points on the "
+                "iterated side inside a narrow / medium / wide x window (few expected points on the curve or at the height the curve "
+                "has elsewhere; or few knees against thousands of expected points), so that the Euclidean nearest neighbour is "
+                "routinely not the nearest in x and lies outside the x span of the iterated side")
     ctx.assumptions += numeric.ASSUMPTIONS + [
         "n-1 is a power of two and t dyadic, so distance/range <= t is decided exactly in binary64",
         "nearest knee / nearest neighbour ties: first index (numpy argmin)",
